@@ -55,4 +55,13 @@ theorem delivers_names {env : Env} {all : Bool} {e : BExp} {v : Val} (h : Delive
     · exact ih1 s hs
     · exact ih2 s hs
 
+/-- whatever is delivered names only what `reach` computes -/
+theorem delivers_reach {env : Env} {e : BExp} {v : Val} (h : Delivers env false e v) :
+    ∀ s ∈ v.names, s ∈ reach env e := by
+  intro s hs
+  obtain ⟨r, hr, w, hw, hsw⟩ := delivers_names h s hs
+  unfold reach
+  simp only [List.mem_flatMap]
+  exact ⟨r, hr, w, hw, hsw⟩
+
 end Martian.Vdr
